@@ -440,8 +440,13 @@ func (c *compiler) evalAccessIndex(left, index interface{}, node *ast.IndexExpre
 
 func (c *compiler) evalHashLiteral(node *ast.HashLiteral) (interface{}, error) {
 	m := map[string]interface{}{}
-	for ke, ve := range node.Pairs {
-		v, err := c.evalExpression(ve)
+	// values are evaluated in source order (Pairs is a Go map: ranging over it is unordered)
+	for _, ke := range node.Order {
+		if ke == nil {
+			return nil, fmt.Errorf("invalid hash key")
+		}
+
+		v, err := c.evalExpression(node.Pairs[ke])
 		if err != nil {
 			return nil, err
 		}
